@@ -42,8 +42,8 @@ BASE["raise"] = True
 
 def plan(tier):
     q = tier == "quick"
-    return [{"name": "main", "examples": 800 if q else 30000}, {"name": "corrupt", "examples": 400 if q else 8000},
-            {"name": "actors", "examples": 300 if q else 6000}]
+    return [{"name": "main", "examples": 1600 if q else 30000}, {"name": "corrupt", "examples": 600 if q else 8000},
+            {"name": "actors", "examples": 600 if q else 6000}]
 
 
 @st.composite
